@@ -736,6 +736,11 @@ class LSMTree(Entity):
             self._memtable.set_clock(self._clock)
         self._immutable_memtables.clear()
 
+        # Writes suspended in their WAL append died with the power loss (their
+        # process may never resume): they no longer hold back WAL truncation.
+        # What survived of them in the log is replayed by recover_from_crash().
+        self._wal_in_flight.clear()
+
         # Crash WAL — discard unsynced entries
         wal_lost = 0
         if self._wal is not None:
